@@ -251,6 +251,11 @@ func (s *Syncer[H]) findTailHeight(ctx context.Context, oldTail, head H) (uint64
 		estimatedTailHeight = oldTail.Height()
 	}
 
+	if estimatedTailHeight > head.Height() {
+		// block times longer than configured make the tail-based estimate overshoot the chain
+		estimatedTailHeight = head.Height()
+	}
+
 	log.Debugw(
 		"current tail is beyond pruning window",
 		"time_diff", tailTimeDiff.String(),
